@@ -262,6 +262,27 @@ func (e *Engine) solve(o *Obligation, outDir string, idx int, timeoutS int, both
 	}
 	scache.mu.Unlock()
 
+	// on-disk memo of discharged queries: the key is the hash of the complete SMT-LIB script generated from the
+	// current tree, so only a byte-identical query (same code, same contracts, same encoder) is ever reused.
+	// Only `unsat` answers are stored; anything else is solved again.
+	cacheFile := ""
+	if dir := diskCacheDir(); dir != "" {
+		cacheFile = filepath.Join(dir, fmt.Sprintf("%x", h[:16]))
+		if b, err := os.ReadFile(cacheFile); err == nil {
+			parts := strings.SplitN(strings.TrimSpace(string(b)), " ", 2)
+			if len(parts) == 2 {
+				var secs float64
+				fmt.Sscanf(parts[0], "%f", &secs)
+				res.Status, res.Solver, res.Seconds = "unsat", parts[1]+" [memo]", secs
+				res.Detail = res.Solver + ": unsat (memo of an identical query)"
+				scache.mu.Lock()
+				scache.m[h] = res
+				scache.mu.Unlock()
+				return res
+			}
+		}
+	}
+
 	var use []solverSpec
 	for _, sp := range solvers {
 		if sp.noLambda && d.hasLam {
@@ -329,10 +350,33 @@ func (e *Engine) solve(o *Obligation, outDir string, idx int, timeoutS int, both
 		res.Status = final
 	}
 	res.Detail = strings.Join(details, "; ")
+	if cacheFile != "" && res.Status == "unsat" {
+		_ = os.WriteFile(cacheFile, []byte(fmt.Sprintf("%.3f %s\n", res.Seconds, res.Solver)), 0o644)
+	}
 	scache.mu.Lock()
 	scache.m[h] = res
 	scache.mu.Unlock()
 	return res
+}
+
+var diskCacheOnce sync.Once
+var diskCachePath string
+
+// diskCacheDir: GOVC_MEMO=off disables the memo; GOVC_MEMO=<dir> relocates it (default /verif/out/memo).
+func diskCacheDir() string {
+	diskCacheOnce.Do(func() {
+		d := os.Getenv("GOVC_MEMO")
+		if d == "off" {
+			return
+		}
+		if d == "" {
+			d = "/verif/out/memo"
+		}
+		if err := os.MkdirAll(d, 0o755); err == nil {
+			diskCachePath = d
+		}
+	})
+	return diskCachePath
 }
 
 func firstLines(s string, n int) string {
